@@ -31,6 +31,7 @@ class Obligation:
         self.reason = ""
         self.facts = []               # relevant array-level well-formedness facts
         self.parts = None             # [(label, formula)]: goal is their conjunction; split only for diagnosis
+        self.soft = False             # exit-path cover: a dead path is legitimate; only "every normal exit dead" fails
 
     @property
     def name(self):
